@@ -281,3 +281,10 @@ package server
 //@   at-call (*allocation.Manager).GetTCPConnection assert [C03,C16:bind-by-authed-user] recv == req.AllocationManager && authOK && arg0 == authUser && int(arg1) == be32(attr(stunMsg, stun.AttrConnectionID), 0)
 //@   at-call buildAndSend assert [C03,C16:success-after-bind] int(typeOf(arg2).Class) == 2 ==> authOK && tcpConn != nil && len(arg2) == 3 && typeis(arg2[2], proto.ConnectionID) && int(unbox(arg2[2], proto.ConnectionID)) == be32(attr(stunMsg, stun.AttrConnectionID), 0)
 //@   at-call (*allocation.Manager).RemoveTCPConnection assert [C16:teardown] recv == req.AllocationManager && int(arg0) == be32(attr(stunMsg, stun.AttrConnectionID), 0)
+
+//@      // ---- dispatch (C03, C19): each STUN class/method pair is served by the handler written for it, and by no other
+//@ func getMessageHandler
+//@   inline-at-calls
+//@   pure
+//@   ensures [C03,C19:dispatch] res1 == nil ==> (int(class) == 1 && int(method) == 6 && res0 == fnval("github.com/pion/turn/v5/internal/server.handleSendIndication")) || (int(class) == 0 && ((int(method) == 3 && res0 == fnval("github.com/pion/turn/v5/internal/server.handleAllocateRequest")) || (int(method) == 4 && res0 == fnval("github.com/pion/turn/v5/internal/server.handleRefreshRequest")) || (int(method) == 8 && res0 == fnval("github.com/pion/turn/v5/internal/server.handleCreatePermissionRequest")) || (int(method) == 9 && res0 == fnval("github.com/pion/turn/v5/internal/server.handleChannelBindRequest")) || (int(method) == 1 && res0 == fnval("github.com/pion/turn/v5/internal/server.handleBindingRequest")) || (int(method) == 10 && res0 == fnval("github.com/pion/turn/v5/internal/server.handleConnectRequest")) || (int(method) == 11 && res0 == fnval("github.com/pion/turn/v5/internal/server.handleConnectionBindRequest"))))
+//@   ensures [C03,C19:dispatch-known-only] res1 != nil ==> res0 == nil
